@@ -295,6 +295,77 @@ impl Gen {
         }
         v
     }
+    /// composed stream (grid ticks): every ECU runs its own script of boots - messages with rising uptimes, a per-boot transport
+    /// delay and occasionally a smaller delay for a later message (the start estimate moves back: merge candidates), short and long
+    /// off-times, resumes (uptime continues after a reception gap) - and the scripts are interleaved by reception time; now and
+    /// then a message arrives late (non-monotonic reception times). Returns (ecu, rx, ts, kind) tuples.
+    fn composed_stream(&mut self, max_len: usize) -> Vec<(String, u64, u64, String)> {
+        let names = ["A", "B", "C"];
+        let ne = match self.rng.below(8) { 0 => 1, 7 => 3, _ => 2 };
+        let upt = [0u64, 1, 10, 50, 61, 100, 112, 113, 162];
+        let mut all: Vec<(String, u64, u64, String, usize)> = Vec::new(); // + per-ECU sequence number (keeps per-ECU order on ties)
+        for e in 0..ne {
+            let mut boot_rx = 1000 + *self.rng.pick(&[0u64, 1, 2, 40, 64, 100]);
+            let mut seq = 0usize;
+            let mut last_up = 0u64;
+            let nb = self.rng.range(if e == 0 { 2 } else { 1 }, 3);
+            for b in 0..nb {
+                let delay = *self.rng.pick(&[0u64, 0, 1, 30, 62]);
+                let resume = b > 0 && self.rng.chance(1, 4);
+                let k = self.rng.range(1, 4);
+                let mut ups: Vec<u64> = (0..k).map(|_| *self.rng.pick(&upt)).collect();
+                if self.rng.chance(3, 4) { ups.sort(); }
+                let base_up = if resume { last_up } else { 0 };
+                let mut max_rx = boot_rx;
+                // every sixth boot starts with messages that all carry timestamp 0 at successive reception times (each is a
+                // lifecycle of its own until a later message pulls them together: merges of already confirmed lifecycles)
+                if self.rng.chance(1, 6) {
+                    for z in 0..self.rng.range(1, 3) {
+                        all.push((names[e].to_string(), boot_rx + z, 0, "norm".to_string(), seq));
+                        seq += 1;
+                        max_rx = max_rx.max(boot_rx + z);
+                    }
+                }
+                for u in ups {
+                    let d = if self.rng.chance(1, 3) { delay.saturating_sub(*self.rng.pick(&[1u64, 30, 40])) } else { delay };
+                    let up = base_up + u;
+                    let rx = boot_rx + d + u;
+                    let kind = match self.rng.below(24) { 0 | 1 => "ctrl", 2 => "nots", _ => "norm" };
+                    all.push((names[e].to_string(), rx, if kind == "nots" { 0 } else { up }, kind.to_string(), seq));
+                    seq += 1;
+                    max_rx = max_rx.max(rx);
+                    last_up = last_up.max(up);
+                }
+                boot_rx = max_rx + *self.rng.pick(&[1u64, 2, 11, 38, 62, 70]);
+            }
+        }
+        // interleave by reception time; per-ECU order is kept
+        let mut keyed: Vec<(u64, u64, (String, u64, u64, String, usize))> = all.into_iter().map(|m| (m.1, self.rng.below(4), m)).collect();
+        keyed.sort_by_key(|k| (k.0, k.1));
+        let all: Vec<(String, u64, u64, String, usize)> = keyed.into_iter().map(|k| k.2).collect();
+        // per-ECU order: a later message of the same ECU never overtakes (stable repair)
+        let mut out: Vec<(String, u64, u64, String, usize)> = Vec::new();
+        for m in all {
+            out.push(m);
+        }
+        for e in 0..ne {
+            let idxs: Vec<usize> = out.iter().enumerate().filter(|(_, m)| m.0 == names[e]).map(|(i, _)| i).collect();
+            let mut ms: Vec<(String, u64, u64, String, usize)> = idxs.iter().map(|i| out[*i].clone()).collect();
+            ms.sort_by_key(|m| m.4);
+            for (i, m) in idxs.iter().zip(ms.into_iter()) {
+                out[*i] = m;
+            }
+        }
+        // a late arrival: one message is moved one or two places back in the stream (its reception time stays)
+        if out.len() >= 3 && self.rng.chance(1, 4) {
+            let i = self.rng.below(out.len() as u64 - 1) as usize;
+            let j = (i + self.rng.range(1, 2) as usize).min(out.len() - 1);
+            let m = out.remove(i);
+            out.insert(j, m);
+        }
+        out.truncate(max_len);
+        out.into_iter().map(|m| (m.0, m.1, m.2, m.3)).collect()
+    }
     /// "physical" stream: ECUs with boots, delays, suspend/resume, reboots, garbage timestamps, ctrl requests, non-monotonic rx
     fn physical_stream(&mut self, max_n: u64) -> Vec<In> {
         let ne = self.rng.range(1, 4) as usize;
@@ -404,6 +475,18 @@ fn main() {
     let sample_every = a.num("--sample-every", 200);
     let mut drift_samples: Vec<Value> = Vec::new();
 
+    // ---- scenario composer: scripts for spec/LcScripted.tla (one ndjson line per stream), nothing is executed
+    if let Some(nscripts) = a.get("--gen-scripts") {
+        let mut g = Gen { rng: Rng::new(a.num("--seed", 1) ^ 0x5c21_97ed) };
+        let n: u64 = nscripts.parse().unwrap();
+        for _ in 0..n {
+            let st = g.composed_stream(a.num("--script-len", 12) as usize);
+            let msgs: Vec<Value> = st.iter().enumerate().map(|(i, m)| json!({"ecu":m.0,"rx":m.1,"ts":m.2,"kind":m.3,"ix":i})).collect();
+            t.ev(json!({"msgs":msgs}));
+        }
+        println!("{}", json!({"scripts":n}));
+        return;
+    }
     // ---- TLC behaviours with predictions
     if let Some(f) = a.get("--scenarios") {
         use std::io::BufRead;
@@ -422,8 +505,11 @@ fn main() {
             let obs = run_detector(&[msgs_of(&inputs, 0)], false);
             replayed += 1;
             if obs.panic.is_some() { panics += 1; }
-            let same = matches_prediction(&scn, &obs);
-            let contract_ok = scn["c05"].as_bool().unwrap() && scn["c06"].as_bool().unwrap() && scn["c07"].as_bool().unwrap() && !scn["panic"].as_bool().unwrap()
+            // scripted scenarios carry one prediction per iteration order of the confirmation pass ("alts"): the observation has to
+            // equal one of them; the contract verdict must be TRUE on all of them for the fast path
+            let alts: Vec<&Value> = match scn.get("alts").and_then(|x| x.as_array()) { Some(v) => v.iter().collect(), None => vec![&scn] };
+            let same = alts.iter().any(|p| matches_prediction(p, &obs));
+            let contract_ok = alts.iter().all(|p| p["c05"].as_bool().unwrap() && p["c06"].as_bool().unwrap() && p["c07"].as_bool().unwrap() && !p["panic"].as_bool().unwrap())
                 && (!clean || scn["exact"].as_bool().unwrap());
             if !same {
                 drift += 1;
@@ -435,6 +521,30 @@ fn main() {
                 slow += 1;
                 let hdr = if clean { json!({"kind":"clean","src":"tlc-clean","prepop":false,"boots":scn["boots"]}) } else { json!({"kind":"stream","src":"tlc","prepop":false,"boots":[]}) };
                 write_trace(&mut t, case, hdr, &inputs, &obs);
+                case += 1;
+            }
+            // chained run: a second detector run starts from the table the first one left (pre-populated table) - requested for
+            // scripts whose first run merges an already published lifecycle (the table operations of that path decide whether the
+            // second run can even start); always a full trace
+            if scn.get("chain").and_then(|x| x.as_bool()).unwrap_or(false) && !inputs.is_empty() {
+                let last = inputs.last().unwrap().clone();
+                let mut all = inputs.clone();
+                let mut ecus: Vec<String> = inputs.iter().map(|i| i.ecu.clone()).collect();
+                ecus.sort();
+                ecus.dedup();
+                for (k, e) in ecus.iter().cycle().take(3).enumerate() {
+                    let mut x = last.clone();
+                    x.ecu = e.clone();
+                    x.kind = "norm".to_string();
+                    x.rx_us = last.rx_us + (k as u64 + 1) * TICK_US;
+                    x.ts_dms = last.ts_dms.saturating_add((k as u32 + 1) * 10_000);
+                    x.index = last.index.map(|v| v + k as u32 + 1);
+                    all.push(x);
+                }
+                let cut = inputs.len();
+                let obs2 = run_detector(&[msgs_of(&all[..cut], 0), msgs_of(&all[cut..], cut)], false);
+                if obs2.panic.is_some() { panics += 1; }
+                write_trace(&mut t, case, json!({"kind":"stream","src":"tlc-chained","prepop":true,"boots":[]}), &all, &obs2);
                 case += 1;
             }
         }
